@@ -48,7 +48,7 @@ def main():
     tier = "thorough" if "--thorough" in sys.argv else "quick"
     names = args or sorted(n for n in os.listdir(SEEDED) if os.path.exists(os.path.join(SEEDED, n, "meta.json")))
     bad = 0
-    with concurrent.futures.ThreadPoolExecutor(2) as ex:
+    with concurrent.futures.ThreadPoolExecutor(int(os.environ.get("SELFTEST_PAR", "2"))) as ex:
         for res in ex.map(lambda n: run_one(n, tier), names):
             neutral = res["name"].startswith("_neutral")
             if "error" in res:
